@@ -434,6 +434,16 @@ def outcome_kind(tr):
 
 def c04(tr, acc, case):
     kind = outcome_kind(tr)
+    ne = tr.rec.of("nonevent_return")
+    if ne:
+        # a step handed back something that is not an event (42, but also 0, "", [], {}, False): that is a step failure, and
+        # with no retry policy / handler on that step the run ends as failed -- unless it had already ended otherwise
+        acc.hit("nonevent_return_eval")
+        if kind is None:
+            acc.violation({"mech": "non_event_return_did_not_end_the_run", "value": ne[0]["kind"]},
+                          f"step {ne[0]['step']} returned a non-event ({ne[0]['kind']}) at vt={ne[0]['t']} but the run never ended "
+                          f"(quiescent={tr.quiescent}); stream tail={[e['type'] for e in tr.stream[-3:]]}", case)
+            return
     if kind is None:
         acc.note("run_not_finished")
         return
